@@ -157,6 +157,18 @@ CHECKS = {
              'with the real DigitalMetadataWriter/Reader.',
         technique='Python AST to SMT (z3 LIA, exact IEEE-754 rounding model), per-configuration queries',
         design_ref='DESIGN.md section 4 C13'),
+    'C07': dict(
+        level='model_checking',
+        text='digital_rf_set_fill_value is executed from IR with the HDF5 type queries (class, size, sign, byte order) and is_complex symbolic: on '
+             'each of the paths the buffer handed to H5Pset_fill_value, read in the declared byte order of the declared type, is shown to be a '
+             'NaN (floats), the most negative value (signed), zero (unsigned), in both components of complex types, and every supported cell is '
+             'accepted. The constructor is executed (float instructions havoc) to show needs_chunking <=> compression or checksum or not '
+             'continuous. The continuous-mode write-path histories show: unchunked files get the full-window dataset, each sample lands at row '
+             'index - first(F), exactly one index row (first(F), 0), a file is created only by a call that writes one of its slots; chunked '
+             'continuous mode behaves as gapped mode. Witness histories are run on the real build incl. the fill of unwritten slots.',
+        note='Trusted: z3, IR executor, stubs; little-endian host; HDF5 applies the fill value it was given.',
+        technique='symbolic execution of LLVM IR to SMT (z3), constant-buffer interpretation per path',
+        design_ref='DESIGN.md section 4 C07'),
 }
 
 NOT_YET = 'check not built yet in this revision of /verif (planned, see DESIGN.md section 4)'
